@@ -1,7 +1,7 @@
 #!/bin/bash
 # usage: tools/runall.sh [tier] [seed] [outdir]   - runs every check once, prints a summary line per property
 tier=${1:-quick}; seed=${2:-1}; out=${3:-}
-cd /verif
+cd "$(dirname "${BASH_SOURCE[0]}")/.."
 for p in C01 C02 C03 C04 C05 C06 C07 C08 C09 C10 C11 C12 C13 C14 C15 C16 C17 C18 C19 C20; do
   s=$(date +%s)
   if [ -n "$out" ]; then mkdir -p $out; VERIF_OUT=$out VERIF_SEED=$seed ./check $p $tier > /tmp/runall.$p.$seed.log 2>&1; else VERIF_SEED=$seed ./check $p $tier > /tmp/runall.$p.$seed.log 2>&1; fi
